@@ -214,6 +214,11 @@ def cadence(ctx, rule):
             ok = price is not None and price[0] == 'call' and price[1] == ('fn', MID) and price[2][1] == V('dt') and price[2][2] == asset
             ctx.require(ok, rule, 'the observation appended is the mid price of that asset at dt', e.site, fmt(price)[:120] if price else None, key='%s|price' % rule)
             ok = len(loops) == 2 and fmt(loops[0][0].iter) in ('self.signals.items()', 'self.signals.values()', 'self.signals') and fmt(loops[1][0].iter).endswith('.assets') and not conds
+            if not ok and any(l[0].iter is None or fmt(l[0].iter) == 'None' or any(s_[0] in ('havoc', 'lc') for s_ in T.subterms(l[0].iter)) for l in loops):
+                # the appends are driven by something the engine did not read as a sequence (a generator method feeding (signal, asset, price) triples): what it
+                # ranges over is not decided here
+                ctx.undecided(rule, 'one append for every tracked asset of every signal, unconditionally', e.site, 'the loop ranges over %s' % [fmt(l[0].iter)[:60] if l[0].iter else None for l in loops])
+                continue
             ctx.require(ok, rule, 'one append for every tracked asset of every signal, unconditionally', e.site, [fmt(l[0].iter) for l in loops], key='%s|append-loop' % rule)
             ctx.require(asset == ('elem', loops[1][0].iter, loops[1][0].id) if len(loops) == 2 else None, rule, 'the asset appended is the loop asset', e.site, key='%s|append-asset' % rule)
             for l, b in loops:
